@@ -257,7 +257,7 @@ def check_reinit(ctx, pool, rule):
     except the closed set: nothing of an earlier - e.g. failed - run leaks into the next one"""
     run = pool.methods['run']
     mutated = {}
-    MUT = ('append', 'extend', 'insert', 'pop', 'clear', 'add', 'remove', 'update', 'discard')
+    from .c07 import MUTATORS as MUT
     for f in run.nested.values():
         for n in walk_local(f.node):
             if isinstance(n, (ast.Assign, ast.AugAssign)):
@@ -299,6 +299,23 @@ def check_reinit(ctx, pool, rule):
                   where=loc(run, run.node))
     ctx.floor('bookkeeping attributes mutated by run closures', len(mutated), 5)
     # _closed must NOT be reset (dead workers are never handed work again)
+    # ... and nothing ever takes an id out of it: a worker that has been written off stays written off (restart gives workers new ids)
+    SHRINK = ('remove', 'discard', 'pop', 'clear', 'difference_update', 'intersection_update', 'symmetric_difference_update', '__isub__', '__iand__')
+    for f in ctx.prog.funcs.values():
+        owner, q = f.cls, f.parent
+        while owner is None and q is not None:
+            owner, q = q.cls, q.parent
+        if owner is not pool:
+            continue
+        for c in calls_in(f.node):
+            if last_attr(c) in SHRINK and receiver(c) == 'self._closed':
+                ctx.check(rule, f'{f.short}: no id is ever taken out of the set of written-off workers', False, f.short, f'closed-set-shrinks:{last_attr(c)}',
+                          f'`{norm(c)[:80]}` removes ids from the set of dead/closed workers: a worker whose death has been handled is offered work again in the next run - the input is '
+                          'dropped (retry off) or the run keeps retrying a worker that will never answer', where=loc(f, c))
+        for st in walk_local(f.node):
+            if isinstance(st, ast.AugAssign) and is_self_attr(st.target, '_closed') and isinstance(st.op, (ast.Sub, ast.BitAnd, ast.BitXor)):
+                ctx.check(rule, f'{f.short}: no id is ever taken out of the set of written-off workers', False, f.short, 'closed-set-shrinks:augassign',
+                          f'`{norm(st)[:80]}` removes ids from the set of dead/closed workers', where=loc(f, st))
     ctx.check(rule, 'Pool.run keeps `_closed` across runs', '_closed' not in reinit, 'Pool.run', 'closed-set-reset',
               'Pool.run forgets which workers are dead: the next run hands work to dead workers', where=loc(run, run.node))
 
